@@ -463,34 +463,65 @@ func ReadProbe(s *core.Sess, t *Table, tbl string, sc *Scan, i int, p Probe) (d 
 			actKeys = append(actKeys, strings.Join(key, "|"))
 		}
 	}
-	if len(p.Order) > 0 {
-		want := expKeys
-		if p.Limit > 0 && len(want) > p.Limit {
-			want = want[:p.Limit]
-		}
-		if !core.SameStrings(want, actKeys) {
-			return &Diff{Probe: p, Query: q, Expected: core.ClipStrings(want, 30), Actual: core.ClipStrings(actKeys, 30), Why: "key sequence of ordered scan"}, nil
-		}
-	}
 	sort.Strings(act)
+	rowsOK := true
 	if p.Limit > 0 {
-		// every returned row must be one of the matching rows (sub-multiset)
+		// every returned row must be one of the matching rows (sub-multiset), and as many as the limit allows
 		avail := map[string]int{}
 		for _, r := range expRows {
 			avail[r]++
 		}
 		for _, r := range act {
 			if avail[r] == 0 {
-				return &Diff{Probe: p, Query: q, Expected: core.ClipStrings(expRows, 30), Actual: core.ClipStrings(act, 30), Why: "LIMIT read returned a row outside the matching set"}, nil
+				rowsOK = false
 			}
 			avail[r]--
 		}
-		return nil, nil
+		wantN := len(expRows)
+		if wantN > p.Limit {
+			wantN = p.Limit
+		}
+		if len(act) != wantN {
+			rowsOK = false
+		}
+	} else {
+		rowsOK = core.SameStrings(expRows, act)
 	}
-	if !core.SameStrings(expRows, act) {
+	if !rowsOK {
 		return &Diff{Probe: p, Query: q, Expected: core.ClipStrings(expRows, 30), Actual: core.ClipStrings(act, 30), Why: "row multiset"}, nil
 	}
+	if len(p.Order) > 0 {
+		want := expKeys
+		if p.Limit > 0 && len(want) > p.Limit {
+			want = want[:p.Limit]
+		}
+		if !core.SameStrings(want, actKeys) {
+			return &Diff{Probe: p, Query: q, Expected: core.ClipStrings(want, 30), Actual: core.ClipStrings(actKeys, 30), Why: WhyKeySequence}, nil
+		}
+	}
 	return nil, nil
+}
+
+// WhyKeySequence marks a diff whose rows are right but whose order is not the index order.
+const WhyKeySequence = "key sequence of ordered scan (rows are the right ones)"
+
+// MissingOnly reports whether the diff consists of rows missing from the index-driven result only
+// (every returned row is an expected one).
+func (d *Diff) MissingOnly() bool {
+	if d.Why != "row multiset" {
+		return false
+	}
+	avail := map[string]int{}
+	for _, r := range d.Expected {
+		avail[r]++
+	}
+	for _, r := range d.Actual {
+		if avail[r] == 0 {
+			return false
+		}
+		avail[r]--
+	}
+	return len(d.Actual) < len(d.Expected)
 }
 
 // IndexDriven reports whether the plan of q reads tbl through an index.
